@@ -542,7 +542,10 @@ func (c *Controller) addOrUpdateService(pre, curr *v1.Service, currConv *model.S
 	// but workload entries will also need to be updated.
 	// TODO(nmittler): Build different sets of endpoints for cluster.local and clusterset.local.
 	if updateEDSCache || features.EnableK8SServiceSelectWorkloadEntries {
-		endpoints := c.buildEndpointsForService(currConv, updateEDSCache)
+		// Endpoints cached before the service was known may be stale: a pod whose labels changed in the
+		// meantime was not recomputed, since recomputeServiceForPod only covers the services known at
+		// that time. Rebuild them when the service is added.
+		endpoints := c.buildEndpointsForService(currConv, updateEDSCache || event == model.EventAdd)
 		if len(endpoints) > 0 {
 			c.opts.XDSUpdater.EDSCacheUpdate(shard, string(currConv.Hostname), ns, endpoints)
 		}
